@@ -470,3 +470,195 @@ Proof.
   exists L1. unfold gq' in Hfin. rewrite (x_qd _ _ _ X) in Hfin.
   destruct (w_qd (d_w d) =? 0)%N; auto. eapply AInv_ghost_eq; eauto.
 Qed.
+
+(* ---------------------------------------------------------------- the remaining operations *)
+
+Lemma set_limit_ok l w : Inv_n w -> exists nl av, set_limit l w = Ok (set_limit_avail w nl av).
+Proof.
+  intros []. unfold set_limit. unfold resv in *.
+  destruct (w_limit w <=? l) eqn:E1.
+  - apply Nat.leb_le in E1.
+    destruct (Nat.min l (length (w_buf w)) <? w_limit w) eqn:E2; [apply Nat.ltb_lt in E2; lia|]. eauto.
+  - apply Nat.leb_gt in E1.
+    destruct (w_cursor w + w_limit w <? w_avail w) eqn:E2; [apply Nat.ltb_lt in E2; lia|].
+    destruct (w_limit w <? Nat.max l (w_cursor w + w_limit w - w_avail w)) eqn:E3; [apply Nat.ltb_lt in E3; lia|].
+    destruct (w_avail w <? w_limit w - Nat.max l (w_cursor w + w_limit w - w_avail w)) eqn:E4;
+      [apply Nat.ltb_lt in E4; lia|]. eauto.
+Qed.
+
+Lemma retemplate_ok nb w : Inv_n w ->
+  (exists lim av, retemplate nb w =
+     Ok (set_limit_avail (set_buf w (firstn (w_cursor w) (w_buf w) ++ skipn (w_cursor w) nb)) lim av)) \/
+  retemplate nb w = Err Truncation.
+Proof.
+  intros []. unfold retemplate. unfold resv in *.
+  destruct (length (w_buf w) <? w_cursor w) eqn:E1; [apply Nat.ltb_lt in E1; lia|].
+  destruct (w_limit w <? w_avail w) eqn:E2; [apply Nat.ltb_lt in E2; lia|].
+  destruct (length nb <? w_cursor w + (w_limit w - w_avail w)) eqn:E3; [right; reflexivity|].
+  apply Nat.ltb_ge in E3.
+  destruct (Nat.min (w_limit w) (length nb) <? w_limit w - w_avail w) eqn:E4; [apply Nat.ltb_lt in E4; lia|].
+  destruct (length nb <? w_cursor w) eqn:E5; [apply Nat.ltb_lt in E5; lia|].
+  left. eauto.
+Qed.
+
+Lemma hdr_octet_ok w i : Inv_n w -> N.to_nat i < header_size -> exists x, hdr_octet w i = Ok x.
+Proof.
+  intros [] Hi. unfold hdr_octet. destruct (nth_error (w_buf w) (N.to_nat i)) eqn:E; eauto.
+  apply nth_error_None in E. lia.
+Qed.
+
+Lemma getters_ok w : Inv_n w -> exists l, getters w = Ok l.
+Proof.
+  intros Hn. unfold getters.
+  destruct (hdr_octet_ok w ID_START Hn ltac:(cbv; lia)) as [x0 ->]. cbn [bind].
+  destruct (hdr_octet_ok w (ID_START + 1) Hn ltac:(cbv; lia)) as [x1 ->]. cbn [bind].
+  destruct (hdr_octet_ok w QR_BYTE Hn ltac:(cbv; lia)) as [x2 ->]. cbn [bind].
+  destruct (hdr_octet_ok w OPCODE_BYTE Hn ltac:(cbv; lia)) as [x3 ->]. cbn [bind].
+  destruct (hdr_octet_ok w AA_BYTE Hn ltac:(cbv; lia)) as [x4 ->]. cbn [bind].
+  destruct (hdr_octet_ok w TC_BYTE Hn ltac:(cbv; lia)) as [x5 ->]. cbn [bind].
+  destruct (hdr_octet_ok w RD_BYTE Hn ltac:(cbv; lia)) as [x6 ->]. cbn [bind].
+  destruct (hdr_octet_ok w RA_BYTE Hn ltac:(cbv; lia)) as [x7 ->]. cbn [bind].
+  destruct (hdr_octet_ok w RCODE_BYTE Hn ltac:(cbv; lia)) as [x8 ->]. cbn [bind].
+  eauto.
+Qed.
+
+Lemma AInv_clear d g L : AInv d g L ->
+  AInv (mkD (clear_rrs (d_w d)) (d_regs d))
+       (mkGn (g_q g) None None (map (map (fun _ => None)) (g_regs g))) (Lq L (w_rr_start (d_w d))).
+Proof.
+  destruct d as [w regs]. simpl. intros [Hn Hi Ha Hqc Hqd Hqa Hr Ht]. simpl in *.
+  assert (Hn' : Inv_n (clear_rrs w)).
+  { destruct Hn. constructor; simpl; auto; lia. }
+  assert (HqL : forall pr, w_qname w = Some pr -> Lq L (w_rr_start w) (p_ptr pr)).
+  { intros pr E. destruct (Hqa pr E) as [m [_ [[K _] _]]]. exact K. }
+  assert (Eqv : forall s, Lq L (w_rr_start w) s <-> Lq (Lq L (w_rr_start w)) (w_rr_start w) s)
+    by (unfold Lq; intros s; tauto).
+  constructor; simpl; auto.
+  - constructor; simpl.
+    + apply (inv_nb _ Hn').
+    + apply Hn.
+    + left. lia.
+    + exact Hqc.
+    + exact Hqd.
+    + repeat split; simpl; auto.
+      destruct (w_qname w) as [pr|] eqn:E; simpl; auto.
+      destruct (Hqa pr eq_refl) as [m [_ [[S1 [S2 [S3 [n' [S4 S5]]]]] S6]]].
+      split; auto. split; auto. split; [eapply closed_real; eauto|].
+      exists n'. split; auto. rewrite S6. unfold nm_len. rewrite (name_eq_length _ _ _ S5). reflexivity.
+    + intros pr [E|[E|E]]; try discriminate. auto.
+  - split; [exact Hqa|]. split; intros pr E; discriminate.
+  - apply (closed_equiv _ _ _ _ _ _ Eqv). exact Hqc.
+  - apply (decodable_sub _ _ (Lq L (w_rr_start w))); [intros s Hs; apply Eqv; exact Hs|exact Hqd].
+  - eapply anch_sub; [exact Hqa|]. intros pr E. apply Eqv. auto.
+  - destruct Hr as [Hl _]. split; [rewrite map_length; exact Hl|].
+    intros r v names i p m _ E2 _ E4. rewrite nth_error_map in E2.
+    destruct (nth_error (g_regs g) r) as [nm|]; simpl in E2; [|discriminate]. inversion E2; subst names.
+    rewrite nth_error_map in E4. destruct (nth_error nm i); simpl in E4; discriminate.
+Qed.
+
+Lemma wf_name_lower n : wf_name n -> wf_name (nm_lower n).
+Proof.
+  intros [H1 H2]. unfold nm_lower. split; [|rewrite map_length; auto].
+  rewrite Forall_forall in *. intros x Hx. apply in_map_iff in Hx as [y [<- Hy]].
+  unfold wf_label. rewrite map_length. apply H1; auto.
+Qed.
+
+Lemma AInv_eta d g L : AInv d g L -> AInv (mkD (d_w d) (d_regs d)) g L.
+Proof. destruct d; auto. Qed.
+
+Theorem step_ok_all d g L o : AInv d g L -> op_wf o -> op_contract d g o -> step_ok d g o.
+Proof.
+  intros Hi Hwf Hc. pose proof (a_n _ _ _ Hi) as Hn.
+  destruct o; simpl in Hwf, Hc;
+    try (eapply step_question; eauto; fail);
+    try (destruct Hwf; eapply step_rr; eauto; fail);
+    try (destruct Hwf; eapply step_rrset; eauto; fail);
+    unfold step_ok; cbn [step].
+  - (* set_id *) destruct (hdr_write_ok d g L (N.to_nat ID_START) (be16 v) Hi ltac:(cbv; lia)) as [w' [E [H _]]].
+    unfold set_id. rewrite E. simpl. eauto.
+  - destruct (hdr_modify_ok d g L QR_BYTE (set_bit QR_MASK b) Hi ltac:(cbv; lia)) as [w' [E [H _]]].
+    unfold set_qr, w_set_flag. rewrite E. simpl. eauto.
+  - destruct (hdr_modify_ok d g L OPCODE_BYTE (fun x => N.lor (N.land x (255 - OPCODE_MASK)) ((v * 2 ^ OPCODE_SHIFT) mod 256)) Hi ltac:(cbv; lia)) as [w' [E [H _]]].
+    unfold set_opcode. rewrite E. simpl. eauto.
+  - destruct (hdr_modify_ok d g L AA_BYTE (set_bit AA_MASK b) Hi ltac:(cbv; lia)) as [w' [E [H _]]].
+    unfold set_aa, w_set_flag. rewrite E. simpl. eauto.
+  - destruct (hdr_modify_ok d g L TC_BYTE (set_bit TC_MASK b) Hi ltac:(cbv; lia)) as [w' [E [H _]]].
+    unfold set_tc, w_set_flag. rewrite E. simpl. eauto.
+  - destruct (hdr_modify_ok d g L RD_BYTE (set_bit RD_MASK b) Hi ltac:(cbv; lia)) as [w' [E [H _]]].
+    unfold set_rd, w_set_flag. rewrite E. simpl. eauto.
+  - destruct (hdr_modify_ok d g L RA_BYTE (set_bit RA_MASK b) Hi ltac:(cbv; lia)) as [w' [E [H _]]].
+    unfold set_ra, w_set_flag. rewrite E. simpl. eauto.
+  - (* set_rcode *)
+    destruct (hdr_modify_ok d g L RCODE_BYTE (fun x => N.lor (N.land x (255 - RCODE_MASK)) v) Hi ltac:(cbv; lia))
+      as [w' [E [H [He Ht]]]].
+    unfold set_rcode. rewrite E. simpl. exists L.
+    apply (AInv_fields (mkD w' (d_regs d)) g L (clear_upper w')); auto;
+      try (unfold clear_upper; destruct (w_edns w'); reflexivity).
+    + apply inv_clear_upper. apply H.
+    + intros t Et. apply (a_ts _ _ _ H). simpl. unfold clear_upper in Et. destruct (w_edns w'); exact Et.
+  - (* set_extended_rcode *)
+    unfold set_extended_rcode. destruct (w_edns (d_w d)) as [e|] eqn:Ee; [|simpl; exists L; apply AInv_eta; auto].
+    destruct (4095 <? v)%N; [simpl; exists L; apply AInv_eta; auto|].
+    destruct (hdr_modify_ok d g L RCODE_BYTE
+                (fun x => N.lor (N.land x (255 - RCODE_MASK)) (N.land (v mod 256) RCODE_MASK)) Hi ltac:(cbv; lia))
+      as [w' [E [H [He Ht]]]].
+    rewrite E. simpl. exists L.
+    apply (AInv_fields (mkD w' (d_regs d)) g L (set_edns_f w' (Some (mkEdns (e_udp e) ((v / 16) mod 256))))); auto.
+    + pose proof (a_n _ _ _ H) as []. simpl in *. constructor; simpl; auto.
+      unfold resv in *. simpl in *. rewrite He, Ee in i_av. exact i_av.
+    + intros t Et. apply (a_ts _ _ _ H). exact Et.
+  - (* set_limit *)
+    destruct (set_limit_ok l (d_w d) Hn) as [nl [av E]]. rewrite E. simpl. exists L.
+    apply (AInv_fields d g L); auto.
+    + eapply set_limit_inv; eauto.
+    + apply (a_ts _ _ _ Hi).
+  - (* set_mode *)
+    exists L. apply (AInv_fields d g L); auto.
+    + destruct Hn. constructor; auto.
+    + apply (a_ts _ _ _ Hi).
+  - (* set_edns *)
+    pose proof (step_good_all d (OSetEdns udp) Hn) as G. cbn [step] in G.
+    destruct (set_edns udp (d_w d)) as [[[] w']|[e w']|] eqn:E; simpl in G |- *.
+    + exists L. unfold set_edns in E. destruct (w_edns (d_w d)); [discriminate|].
+      destruct (w_avail (d_w d) <? w_cursor (d_w d) + opt_record_size); [discriminate|].
+      destruct (checked_add16 (w_ar (d_w d)) 1); [|discriminate]. inversion E; subst w'.
+      apply (AInv_fields d g L); auto. apply (a_ts _ _ _ Hi).
+    + exists L. apply AInv_obs; auto.
+    + unfold set_edns in E. destruct (w_edns (d_w d)); [discriminate|].
+      destruct (w_avail (d_w d) <? w_cursor (d_w d) + opt_record_size); [discriminate|].
+      destruct (checked_add16 (w_ar (d_w d)) 1); discriminate.
+  - (* set_tsig *)
+    destruct Hwf as [Wa [Wk [Wt Ws]]].
+    pose proof (step_good_all d (OSetTsig alg key time fudge origid error stime) Hn) as G. cbn [step] in G.
+    destruct (set_tsig (nm_lower alg) (nm_lower key) time fudge origid error stime (d_w d)) as [[[] w']|[e w']|] eqn:E;
+      simpl in G |- *.
+    + exists L. unfold set_tsig in E. destruct (w_tsig (d_w d)); [discriminate|].
+      destruct (w_avail (d_w d) <? _); [discriminate|].
+      destruct (checked_add16 (w_ar (d_w d)) 1); [|discriminate]. inversion E; subst w'.
+      apply (AInv_fields d g L); auto. simpl. intros t Et. inversion Et; subst t.
+      unfold tsig_wf; simpl. repeat split; auto using wf_name_lower; apply wf_name_lower; auto.
+    + exists L. apply AInv_obs; auto.
+    + unfold set_tsig in E. destruct (w_tsig (d_w d)); [discriminate|].
+      destruct (w_avail (d_w d) <? _); [discriminate|].
+      destruct (checked_add16 (w_ar (d_w d)) 1); discriminate.
+  - (* update_time_signed *)
+    unfold update_time_signed. destruct (w_tsig (d_w d)) as [t|] eqn:Et; simpl; [|exists L; apply AInv_eta; auto].
+    exists L. apply (AInv_fields d g L); auto.
+    + destruct Hn. constructor; simpl; auto. unfold resv in *. simpl. rewrite Et in i_av. exact i_av.
+    + simpl. intros t' E'. inversion E'; subst t'. destruct (a_ts _ _ _ Hi t Et) as [T1 [T2 [T3 [T4 T5]]]].
+      unfold tsig_wf; simpl. auto.
+  - (* clear_rrs *) eexists. apply AInv_clear. exact Hi.
+  - (* template *)
+    destruct (retemplate_ok newbuf (d_w d) Hn) as [[lim [av E]]|E]; rewrite E; simpl; [|eauto].
+    exists L. apply AInv_move; auto.
+    + eapply retemplate_inv; eauto.
+    + simpl. apply agree_ragree. unfold agree.
+      rewrite firstn_app, firstn_firstn, firstn_length.
+      replace (Nat.min (w_cursor (d_w d)) (w_cursor (d_w d))) with (w_cursor (d_w d)) by lia.
+      assert (Hle : w_cursor (d_w d) <= length (w_buf (d_w d))) by (destruct Hn; lia).
+      replace (w_cursor (d_w d) - Nat.min (w_cursor (d_w d)) (length (w_buf (d_w d)))) with 0 by lia.
+      simpl. apply app_nil_r.
+    + apply (a_ts _ _ _ Hi).
+  - (* template subsequent *) eauto.
+  - (* get *) destruct (getters_ok (d_w d) Hn) as [l ->]. simpl. eauto.
+Qed.
